@@ -25,6 +25,18 @@ def make_overlap_problem(rng, k):
     name = list(CLUSTERS)[k % len(CLUSTERS)]
     el, xyz, sidx = CLUSTERS[name]
     xyz = np.array(xyz, float)
+    if k % 3 != 0:
+        # the cluster's atoms are stored in another order (any atom may come first, also one that two matches share)
+        perm = list(range(len(el)))
+        rng.shuffle(perm)
+        if k % 3 == 1:
+            shared = sorted(set(sidx))[1] if len(sidx) > 1 else sidx[0]
+            perm.remove(shared)
+            perm.insert(0, shared)
+        new = {old: i for i, old in enumerate(perm)}
+        el = [el[i] for i in perm]
+        xyz = xyz[perm]
+        sidx = [new[i] for i in sidx]
     ckind = ["ortho", "tric", "upper", "rotated", "rot-ortho", "mono-yz"][(k // 6) % 6]
     cell = FG.make_cell(rng, 13.0, ckind)
     inv = np.linalg.inv(cell)
